@@ -373,6 +373,29 @@ func TestC18(t *testing.T) {
 	if !ok {
 		r.End()
 	}
+	if prov, mode, names, _, ok := vfReplayCase(r); ok {
+		if seq, known := vfSymbols(names, vfbNames[:]); prov == "cloud_blob" && known {
+			st := &vfStats{}
+			switch mode {
+			case "bucket", "blob":
+				bucket := "vf_replay_" + mode
+				_ = backend.CreateBucket(bucket)
+				w := &vfbWorld{backend: backend, gate: gate, bucket: bucket, blobs: map[string]*vfbBlob{}}
+				blobKey := ""
+				if mode == "blob" {
+					blobKey, w.only = "x", "x"
+				}
+				if ep, err := vfbEndpoint(srv.URL, bucket, blobKey); err == nil {
+					vfbRunDirect(r, w, ep, fails[mode == "blob"], mode, seq, st)
+				}
+			default:
+				vfbRunLoop(r, backend, gate, srv.URL, 0, seq, st)
+			}
+			r.Eval(1)
+			vfFlushStats(r, st)
+		}
+		r.End()
+	}
 	t0 := time.Now()
 	vfbDirect(r, backend, gate, srv.URL, false, fails[false])
 	r.Set("blob_bucket_wall_s", time.Since(t0).Seconds())
